@@ -11,6 +11,7 @@ import (
 	"sort"
 	"strings"
 	"testing"
+	"time"
 )
 
 // tokens maps a concrete string back to atoms (longest match); unknown bytes become OTHER:<text>.
@@ -89,7 +90,7 @@ func init() {
 			in0 := cs[0].In
 			sec, ho := vpB(in0, "secure"), vpB(in0, "httpOnly")
 			cfg := &vpCfg{Store: vpS(in0, "store"), CookieSecure: &sec, CookieHTTPOnly: &ho, CookieSameSite: vpS(in0, "sameSite"),
-				CookiePath: vpS(in0, "path"), ReverseProxy: vpS(in0, "via") == "xfh"}
+				CookiePath: vpS(in0, "path"), ReverseProxy: vpS(in0, "via") == "xfh", Refresh: 3600}
 			if dl, ok := in0["domains"].([]interface{}); ok {
 				for _, d := range dl {
 					cfg.CookieDomains = append(cfg.CookieDomains, voc.text(vpSeq(d)))
@@ -173,7 +174,17 @@ func init() {
 					r3 := w.do(mk("/private", jar))
 					jar.applyAll(r3)
 					note(r3)
-					// sign-in page clears the session cookie: run it on a copy of the jar
+					// a session older than the refresh period is refreshed and its cookie re-issued on that response
+			refreshCookie := "none"
+			if err := w.ageSession(jar, 2*time.Hour, mk("/", jar)); err != nil {
+				env.emit(vpOut{ID: c.ID, Err: "ageSession: " + err.Error()})
+				return
+			}
+			r3b := w.do(mk("/private", jar))
+			jar.applyAll(r3b)
+			note(r3b)
+			refreshCookie = w.sessionCookieEffect(r3b)
+			// sign-in page clears the session cookie: run it on a copy of the jar
 					j2 := jar.clone()
 					r4 := w.do(mk(w.prefix()+"/sign_in", j2))
 					note(r4)
@@ -206,7 +217,7 @@ func init() {
 					}
 					sort.Strings(ps)
 					obs := map[string]interface{}{"attrs": attrs, "maxLen": rawMax, "sessionCookiesAfterSignOut": left, "cookiesSeen": len(all),
-						"purposes": ps, "loggedIn": r3.UpHits > 0, "statuses": []int{r1.Status, r2.Status, r3.Status, r4.Status, r5.Status}}
+						"purposes": ps, "loggedIn": r3.UpHits > 0, "refreshCookie": refreshCookie, "servedAfterRefresh": r3b.UpHits > 0, "statuses": []int{r1.Status, r2.Status, r3.Status, r4.Status, r5.Status}}
 					if len(attrs) == 1 {
 						obs["domain"] = attrs[0].(map[string]interface{})["domain"]
 					}
